@@ -126,6 +126,11 @@ impl Expansion {
             .iter()
             .any(|field| field.0.iter().any(|piece| !piece.as_str().is_empty()));
 
+        // Two or more elements of a list (`$@`, `${a[*]}`, ...) expand to text that holds
+        // the separators between them, so the expansion is not null even when every
+        // element is an empty string.
+        let non_empty = non_empty || (self.from_array && self.fields.len() > 1);
+
         if self.undefined {
             ParameterState::Undefined
         } else if non_empty {
